@@ -19,9 +19,20 @@ Theorem C13_sinks : forall k cap cs, bounded k = true ->
 Proof. exact sinks_bounded. Qed.
 
 (* Growable sinks (Vec, io::Write over a Vec) always succeed and hold the full output. *)
-Theorem C13_unbounded : forall k cap cs, bounded k = false ->
+Theorem C13_unbounded : forall k cap cs, bounded k = false -> partial k = false ->
   run_sink (sink_new k cap) cs = (true, mksink k cap (flat cs) (len (flat cs))).
 Proof. exact sinks_unbounded. Qed.
+
+(* A bounded std::io writer behind the io adapter (it copies what fits and then fails): success iff the
+   output fits; the content is always the first min(cap, total) bytes of the output. *)
+Theorem C13_io_bounded : forall k cap cs, partial k = true ->
+  let r := run_sink (sink_new k cap) cs in
+  (fst r = true <-> len (flat cs) <= cap)
+  /\ (exists rest, flat cs = s_written (snd r) ++ rest)
+  /\ len (s_written (snd r)) = N.min cap (len (flat cs))
+  /\ s_pos (snd r) = len (s_written (snd r))
+  /\ (fst r = true -> s_written (snd r) = flat cs).
+Proof. exact sinks_partial. Qed.
 
 (* Any two sinks that both accept the output hold the same bytes. *)
 Theorem C13_same : forall k k' cap cap' cs,
@@ -36,4 +47,5 @@ Proof. vm_compute. auto. Qed.
 
 Print Assumptions C13_sinks.
 Print Assumptions C13_unbounded.
+Print Assumptions C13_io_bounded.
 Print Assumptions C13_same.
